@@ -111,6 +111,7 @@ func (c *Ctx) verify() (err error) {
 		s.assert(fmt.Sprintf("(> %s 0)", r))
 		fr.Vals[fv] = c.ptrLoc(r, pt.Elem())
 	}
+	c.paramTerms = fr.Params
 	s.Old = s.snapshot()
 	// ghost variables
 	env0 := c.funcEnv(s, fr, true)
